@@ -312,8 +312,12 @@ def build(ctx):
         Job('pool.get_task.any_size', C, 'h_get_task_lc', route='LC', loops=True, nloops=1, defines=['GTLC'], target='arena_slot::get_task + get_task_impl + reset_task_pool_and_leave (owner side, any pool size)', source=ASC, timeout=900),
         Job('the.owner', C, 'h_the_owner', route='RG', loops=True, nloops=1, defines=['THE_OWNER'], target='arena_slot::get_task (+ get_task_impl, reset_task_pool_and_leave) against any number of thieves: arbitration for one arbitrary slot', source=ASC, timeout=900),
         Job('the.thief', C, 'h_the_thief', route='RG', loops=True, nloops=1, defines=['THE_THIEF'], target='arena_slot::steal_task against the owner and other thieves: arbitration for one arbitrary slot', source=ASC, timeout=900),
-        Job('pool.prepare_task_pool', C, 'h_prepare', route='LC', loops=True, nloops=2, defines=['RELOC'], target='arena_slot::prepare_task_pool + allocate_task_pool + commit_relocated_tasks (any pool size and content)', source=ASH, timeout=900),
-        Job('pool.spawn', C, 'h_spawn', route='LC', loops=True, nloops=2, defines=['RELOC'], target='arena_slot::spawn + commit_spawned_tasks (+ prepare_task_pool)', source=ASH, timeout=900),
+    ] + [Job('pool.%s.%s.%s' % (fn, mode, part), C, 'h_' + h, route='LC', loops=True, nloops=2, solver='cadical', timeout=1200, twin=(fn == 'prepare_task_pool' and part == 'kept'),
+             defines=['RELOC', 'RELOC_INPLACE' if mode == 'in_place' else 'RELOC_ALLOC'] + (['RELOC_ORDER'] if part == 'order' else []),
+             target='arena_slot::%s: executions that %s; proof part: %s' % ('prepare_task_pool + allocate_task_pool + commit_relocated_tasks' if fn == 'prepare_task_pool' else 'spawn + commit_spawned_tasks (+ prepare_task_pool)',
+                                                                     'return at once or compact in place' if mode == 'in_place' else 'allocate a larger array',
+                                                                     'every old task is kept, no overwritten cell is read' if part == 'kept' else 'nothing invented, order kept'), source=ASH)
+         for fn, h in (('prepare_task_pool', 'prepare'), ('spawn', 'spawn')) for mode in ('in_place', 'grow') for part in (('kept', 'order') if fn == 'prepare_task_pool' else ('kept',))] + [
         Job('delegate.execute', C, 'h_arena_execute', route='LC', loops=True, nloops=1, defines=['DELEG'], target='task_arena_impl::execute (inline path and delegation to a saturated arena)', source=ARC, timeout=600),
         Job('delegate.task', C, 'h_delegated_task', route='LF', defines=['DELEG'], target='delegated_task::execute / cancel / finalize', source=ARC),
         Job('pool.steal_task', C, 'h_steal', route='LC', loops=True, nloops=1, defines=['STEAL'], target='arena_slot::steal_task (thief side, any pool size)', source=ASC, timeout=600),
